@@ -128,6 +128,15 @@ func (EFR EncodedFastaRecord) ReverseComplement() EncodedFastaRecord {
 	return NEFR
 }
 
+// idFromDescription returns the sequence ID of a fasta header line: its first whitespace-delimited token
+func idFromDescription(description string) (string, error) {
+	fields := strings.Fields(description)
+	if len(fields) == 0 {
+		return "", errors.New("badly formatted fasta file: header line without a sequence ID")
+	}
+	return fields[0], nil
+}
+
 // getAlignmentDims gets the dimensions (i.e. the number of sequences and the width of the alignment
 // in numner of nucleotides) of an alignment in fasta format
 func getAlignmentDims(f io.Reader) (int, int, error) {
@@ -139,6 +148,10 @@ func getAlignmentDims(f io.Reader) (int, int, error) {
 
 	for s.Scan() {
 		line := s.Text()
+
+		if len(line) == 0 {
+			continue
+		}
 
 		if string(line[0]) == ">" {
 			n++
@@ -263,6 +276,10 @@ func ReadAlignment(f io.Reader, chnl chan FastaRecord, cErr chan error, cdone ch
 	for s.Scan() {
 		line := s.Text()
 
+		if len(line) == 0 {
+			continue
+		}
+
 		if first {
 
 			if len(line) == 0 || string(line[0]) != ">" {
@@ -271,7 +288,11 @@ func ReadAlignment(f io.Reader, chnl chan FastaRecord, cErr chan error, cdone ch
 			}
 
 			description = line[1:]
-			id = strings.Fields(description)[0]
+			id, err = idFromDescription(description)
+			if err != nil {
+				cErr <- err
+				return
+			}
 
 			first = false
 
@@ -289,7 +310,11 @@ func ReadAlignment(f io.Reader, chnl chan FastaRecord, cErr chan error, cdone ch
 			counter++
 
 			description = line[1:]
-			id = strings.Fields(description)[0]
+			id, err = idFromDescription(description)
+			if err != nil {
+				cErr <- err
+				return
+			}
 			seqBuffer = ""
 
 		} else {
@@ -355,6 +380,10 @@ func ReadEncodeAlignment(f io.Reader, hardGaps bool, chnl chan EncodedFastaRecor
 	for s.Scan() {
 		line = s.Bytes()
 
+		if len(line) == 0 {
+			continue
+		}
+
 		if first {
 
 			if len(line) == 0 || line[0] != '>' {
@@ -363,7 +392,11 @@ func ReadEncodeAlignment(f io.Reader, hardGaps bool, chnl chan EncodedFastaRecor
 			}
 
 			description = string(line[1:])
-			id = strings.Fields(description)[0]
+			id, err = idFromDescription(description)
+			if err != nil {
+				cErr <- err
+				return
+			}
 
 			first = false
 
@@ -381,7 +414,11 @@ func ReadEncodeAlignment(f io.Reader, hardGaps bool, chnl chan EncodedFastaRecor
 			counter++
 
 			description = string(line[1:])
-			id = strings.Fields(description)[0]
+			id, err = idFromDescription(description)
+			if err != nil {
+				cErr <- err
+				return
+			}
 			seqBuffer = make([]byte, 0)
 
 		} else {
@@ -460,6 +497,10 @@ func ReadEncodeScoreAlignment(f io.Reader, hardGaps bool, chnl chan EncodedFasta
 	for s.Scan() {
 		line = s.Bytes()
 
+		if len(line) == 0 {
+			continue
+		}
+
 		if first {
 
 			if len(line) == 0 || line[0] != '>' {
@@ -468,7 +509,11 @@ func ReadEncodeScoreAlignment(f io.Reader, hardGaps bool, chnl chan EncodedFasta
 			}
 
 			description = string(line[1:])
-			id = strings.Fields(description)[0]
+			id, err = idFromDescription(description)
+			if err != nil {
+				cErr <- err
+				return
+			}
 
 			first = false
 
@@ -490,7 +535,11 @@ func ReadEncodeScoreAlignment(f io.Reader, hardGaps bool, chnl chan EncodedFasta
 			counter++
 
 			description = string(line[1:])
-			id = strings.Fields(description)[0]
+			id, err = idFromDescription(description)
+			if err != nil {
+				cErr <- err
+				return
+			}
 			seqBuffer = make([]byte, 0)
 			score = 0
 			for i := range counting {
@@ -574,6 +623,10 @@ func ReadEncodeAlignmentToList(f io.Reader, hardGaps bool) ([]EncodedFastaRecord
 	for s.Scan() {
 		line = s.Bytes()
 
+		if len(line) == 0 {
+			continue
+		}
+
 		if first {
 
 			if len(line) == 0 || line[0] != '>' {
@@ -581,7 +634,10 @@ func ReadEncodeAlignmentToList(f io.Reader, hardGaps bool) ([]EncodedFastaRecord
 			}
 
 			description = string(line[1:])
-			id = strings.Fields(description)[0]
+			id, err = idFromDescription(description)
+			if err != nil {
+				return []EncodedFastaRecord{}, err
+			}
 
 			first = false
 
@@ -598,7 +654,10 @@ func ReadEncodeAlignmentToList(f io.Reader, hardGaps bool) ([]EncodedFastaRecord
 			counter++
 
 			description = string(line[1:])
-			id = strings.Fields(description)[0]
+			id, err = idFromDescription(description)
+			if err != nil {
+				return []EncodedFastaRecord{}, err
+			}
 			seqBuffer = make([]byte, 0)
 
 		} else {
